@@ -27,6 +27,21 @@ def representToBases (bases : List Int) (exps : List Int) (n : Int) (lm : Nat) :
       | none => throw (.nilDeref "Exp returned nil")
   go 0 exps 1
 
+/-- the guard of `RepresentToPublicKey` (clsignature.go): a negative exponent whose magnitude is
+    longer than `lm` bits (`exp.Sign() < 0 && exp.BitLen() > int(pk.Params.Lm)`). The hash of an
+    oversized exponent is over its magnitude only, so `-x` would stand for `x`. -/
+def negOversized (lm : Nat) (m : Int) : Bool :=
+  decide (m < 0) && decide (bitLen m > lm)
+
+/-- `RepresentToPublicKey(pk, exps)`: `none` is the error return ("negative exponent exceeds the
+    message length"). All exponents are looked at before any base is indexed, so the error wins
+    over the index panic of `RepresentToBases`. -/
+def representToPublicKey (pk : PublicKey) (exps : List Int) : GoM (Option Int) :=
+  if exps.any (negOversized pk.params.Lm) then pure none
+  else do
+    let r ← representToBases pk.r exps pk.n pk.params.Lm
+    pure (some r)
+
 /-- the interval `[2^(le-1), 2^(le-1) + 2^(le'-1)]` for the signature exponent. -/
 def eInInterval (p : SysParams) (e : Int) : Bool :=
   let start : Int := 2 ^ (p.Le - 1)
@@ -38,15 +53,17 @@ def clVerifyWith (isPrime : Nat → Bool) (pk : PublicKey) (sig : CLSignature) (
   if !eInInterval pk.params sig.e then return false
   if !isPrime sig.e.toNat then return false
   let ae ← deref "Exp" (goExp sig.a sig.e pk.n)
-  let r ← representToBases pk.r ms pk.n pk.params.Lm
-  let r := match sig.keyshareP with
-    | some p => r * p
-    | none => r
-  match modPow pk.s sig.v pk.n with
+  match ← representToPublicKey pk ms with
   | none => return false
-  | some sv =>
-    let q := ae * r * sv % pk.n
-    return decide (pk.z = q)
+  | some r =>
+    let r := match sig.keyshareP with
+      | some p => r * p
+      | none => r
+    match modPow pk.s sig.v pk.n with
+    | none => return false
+    | some sv =>
+      let q := ae * r * sv % pk.n
+      return decide (pk.z = q)
 
 def clVerify (pk : PublicKey) (sig : CLSignature) (ms : List Int) : GoM Bool :=
   clVerifyWith probablyPrime pk sig ms
@@ -57,9 +74,10 @@ def clRandomize (pk : PublicKey) (sig : CLSignature) (r : Int) : CLSignature :=
   { a := sig.a * sr % pk.n, e := sig.e, v := sig.v - sig.e * r, keyshareP := none }
 
 /-- the issuer's signing equation with explicit randomness: given `v`, prime `e` and
-    `d = e⁻¹ mod ord`, `A = (Z / (S^v · R · U))^d`. `none` = an inverse does not exist. -/
+    `d = e⁻¹ mod ord`, `A = (Z / (S^v · R · U))^d`. `none` = an inverse does not exist, or `RepresentToPublicKey`
+    returned its error (nothing is signed). -/
 def clSignWith (pk : PublicKey) (order : Int) (u : Int) (ms : List Int) (v e : Int) : Option CLSignature := do
-  let r ← (representToBases pk.r ms pk.n pk.params.Lm).toOption
+  let r ← (representToPublicKey pk ms).toOption.join
   let sv ← goExp pk.s v pk.n
   let numerator := sv * r * u % pk.n
   let inv ← commonModInverse numerator pk.n
